@@ -521,6 +521,22 @@ class VExecutor:
         return gen()
 
 
+class VProcessExecutor(VExecutor):
+    """Stand-in for ProcessPoolExecutor: tasks run on controlled threads of this process, but - as with real worker
+    processes - on a private deep copy of the callable (bound plugin incl. its inlined savers) and arguments; results
+    are copied back.  (Pickling of dynamically created harness classes is not possible, deepcopy has the same effect.)"""
+
+    def submit(self, fn, *args, **kwargs):
+        import copy
+
+        fn2, args2, kwargs2 = copy.deepcopy((fn, args, kwargs))
+
+        def task():
+            return copy.deepcopy(fn2(*args2, **kwargs2))
+
+        return VExecutor.submit(self, task)
+
+
 FIRST_COMPLETED = _cf.FIRST_COMPLETED
 FIRST_EXCEPTION = _cf.FIRST_EXCEPTION
 ALL_COMPLETED = _cf.ALL_COMPLETED
@@ -544,7 +560,7 @@ def vwait(fs, timeout=None, return_when=ALL_COMPLETED):
 
 
 vfutures = types.SimpleNamespace(
-    ThreadPoolExecutor=VExecutor, ProcessPoolExecutor=VExecutor, Future=_Future, wait=vwait, FIRST_COMPLETED=FIRST_COMPLETED,
+    ThreadPoolExecutor=VExecutor, ProcessPoolExecutor=VProcessExecutor, Future=_Future, wait=vwait, FIRST_COMPLETED=FIRST_COMPLETED,
     FIRST_EXCEPTION=FIRST_EXCEPTION, ALL_COMPLETED=ALL_COMPLETED, TimeoutError=_cf.TimeoutError, as_completed=None,
 )
 
@@ -556,7 +572,7 @@ def install():
 
     strax.mailbox.threading = vthreading
     tm.futures = vfutures
-    tm.ProcessPoolExecutor = VExecutor
+    tm.ProcessPoolExecutor = VProcessExecutor
     strax.utils.ThreadPoolExecutor = VExecutor
     strax.utils.wait = vwait
     strax.storage.common.wait = vwait
